@@ -21,7 +21,7 @@ VARIABLES
   \* shared atomics of the current ThreadPoolContext and its plain fields
   signal, next, ndone, ntask, nthr, pool,
   \* main thread: pc, task id in hand, register (loaded signal), loop index, what follows a destroy
-  mpc, mtask, mreg, mi, after, nops,
+  mpc, mtask, mreg, mi, after, nops, pre,
   \* mjData fields touched by mju_dispatch
   locked, depth,
   \* workers
@@ -29,10 +29,10 @@ VARIABLES
   \* bookkeeping for the properties
   ran, running, ranby, want,
   ev           \* last step: [t, op, obj, val] exactly as the scheduler logs it
-vars == <<signal, next, ndone, ntask, nthr, pool, mpc, mtask, mreg, mi, after, nops, locked, depth,
+vars == <<signal, next, ndone, ntask, nthr, pool, mpc, mtask, mreg, mi, after, nops, pre, locked, depth,
           wpc, wstatus, wtask, wnotified, ran, running, ranby, want, ev>>
 shared  == <<signal, next, ndone, ntask, nthr, pool>>
-mainv   == <<mpc, mtask, mreg, mi, after, nops, locked, depth>>
+mainv   == <<mpc, mtask, mreg, mi, after, nops, pre, locked, depth>>
 workv   == <<wpc, wstatus, wtask, wnotified>>
 bookv   == <<ran, running, ranby, want>>
 
@@ -42,7 +42,7 @@ ApiVal(n) == n * 100 + (IF locked THEN 10 ELSE 0) + depth
 
 Init ==
   /\ signal = 1 /\ next = 0 /\ ndone = 0 /\ ntask = 0 /\ nthr = 0 /\ pool = FALSE
-  /\ mpc = "idle" /\ mtask = -1 /\ mreg = 0 /\ mi = 0 /\ after = 0 /\ nops = 0
+  /\ mpc = "idle" /\ mtask = -1 /\ mreg = 0 /\ mi = 0 /\ after = 0 /\ nops = 0 /\ pre = {}
   /\ locked = FALSE /\ depth = 0
   /\ wpc = [w \in Workers |-> "none"] /\ wstatus = [w \in Workers |-> 1]
   /\ wtask = [w \in Workers |-> -1] /\ wnotified = [w \in Workers |-> FALSE]
@@ -60,7 +60,7 @@ ApiPool(n) ==
                          /\ signal' = 1 /\ next' = 0 /\ ndone' = 0 /\ UNCHANGED <<ntask, pool, after>>
      ELSE /\ mpc' = "idle" /\ UNCHANGED <<shared, mi, after>>
   /\ ran' = [t \in Tasks |-> 0] /\ ranby' = {} /\ want' = 0 /\ UNCHANGED running   \* bookkeeping is per API call
-  /\ UNCHANGED <<mtask, mreg, locked, depth, workv>>
+  /\ UNCHANGED <<mtask, mreg, pre, locked, depth, workv>>
 
 \* mju_dispatch(m, d, func, arg, k)
 ApiDispatch(k) ==
@@ -69,8 +69,9 @@ ApiDispatch(k) ==
   /\ ran' = [t \in Tasks |-> 0] /\ ranby' = {} /\ want' = k /\ UNCHANGED running
   /\ IF ~pool \/ k < 2
      THEN /\ ntask' = k /\ mi' = 0 /\ mpc' = IF k = 0 THEN "idle" ELSE "serial"             \* serial path
-          /\ UNCHANGED <<signal, next, ndone, nthr, pool, locked, depth>>
-     ELSE /\ ntask' = k /\ mpc' = "next0" /\ locked' = TRUE /\ depth' = depth + 1            \* markStack + lock
+          /\ UNCHANGED <<signal, next, ndone, nthr, pool, locked, depth, pre>>
+     ELSE /\ ntask' = k /\ mpc' = "pre" /\ pre' = {"next", "ndone"}                          \* markStack + lock
+          /\ locked' = TRUE /\ depth' = depth + 1
           /\ UNCHANGED <<signal, next, ndone, nthr, pool, mi>>
   /\ UNCHANGED <<mtask, mreg, after, workv>>
 
@@ -79,12 +80,12 @@ M_SerialStart ==
   /\ mpc = "serial" /\ mpc' = "serialend"
   /\ ran' = [ran EXCEPT ![mi] = @ + 1] /\ running' = running \cup {<<0, mi>>} /\ ranby' = ranby \cup {0}
   /\ ev' = Ev(0, "tstart", "task", mi * 16)
-  /\ UNCHANGED <<shared, mtask, mreg, mi, after, nops, locked, depth, workv, want>>
+  /\ UNCHANGED <<shared, mtask, mreg, mi, after, nops, pre, locked, depth, workv, want>>
 M_SerialEnd ==
   /\ mpc = "serialend" /\ running' = running \ {<<0, mi>>}
   /\ mi' = mi + 1 /\ mpc' = IF mi + 1 < ntask THEN "serial" ELSE "idle"
   /\ ev' = Ev(0, "tend", "task", mi * 16)
-  /\ UNCHANGED <<shared, mtask, mreg, after, nops, locked, depth, workv, ran, ranby, want>>
+  /\ UNCHANGED <<shared, mtask, mreg, after, nops, pre, locked, depth, workv, ran, ranby, want>>
 
 \* ---------------------------------------------------------------- ThreadPoolContext constructor
 M_Spawn ==
@@ -94,17 +95,17 @@ M_Spawn ==
   /\ ev' = Ev(0, "spawn", "-", mi)
   /\ IF mi < nthr THEN mi' = mi + 1 /\ mpc' = "spawn" /\ UNCHANGED pool
                   ELSE mi' = 0 /\ mpc' = "idle" /\ pool' = TRUE
-  /\ UNCHANGED <<signal, next, ndone, ntask, nthr, mtask, mreg, after, nops, locked, depth, bookv>>
+  /\ UNCHANGED <<signal, next, ndone, ntask, nthr, mtask, mreg, after, nops, pre, locked, depth, bookv>>
 
 \* ---------------------------------------------------------------- ~ThreadPoolContext
 M_Sig0 ==
   /\ mpc = "sig0" /\ signal' = 0 /\ mpc' = "notifyd" /\ ev' = Ev(0, "store", "signal", 0)
-  /\ UNCHANGED <<next, ndone, ntask, nthr, pool, mtask, mreg, mi, after, nops, locked, depth, workv, bookv>>
+  /\ UNCHANGED <<next, ndone, ntask, nthr, pool, mtask, mreg, mi, after, nops, pre, locked, depth, workv, bookv>>
 Sleepers == {w \in Workers : wpc[w] = "sleep"}
 M_NotifyD ==
   /\ mpc = "notifyd" /\ wnotified' = [w \in Workers |-> wnotified[w] \/ w \in Sleepers]
   /\ mpc' = "join" /\ mi' = 1 /\ ev' = Ev(0, "notify", "signal", Cardinality(Sleepers))
-  /\ UNCHANGED <<shared, mtask, mreg, after, nops, locked, depth, wpc, wstatus, wtask, bookv>>
+  /\ UNCHANGED <<shared, mtask, mreg, after, nops, pre, locked, depth, wpc, wstatus, wtask, bookv>>
 M_Join ==
   /\ mpc = "join" /\ wpc[mi] = "halted"
   /\ wpc' = [wpc EXCEPT ![mi] = "none"] /\ ev' = Ev(0, "join", "-", mi)
@@ -114,44 +115,48 @@ M_Join ==
                /\ signal' = 1 /\ next' = 0 /\ ndone' = 0 /\ UNCHANGED ntask
           ELSE /\ mpc' = "idle" /\ mi' = 0 /\ pool' = FALSE /\ nthr' = 0
                /\ UNCHANGED <<signal, next, ndone, ntask, after>>
-  /\ UNCHANGED <<mtask, mreg, nops, locked, depth, wstatus, wtask, wnotified, bookv>>
+  /\ UNCHANGED <<mtask, mreg, nops, pre, locked, depth, wstatus, wtask, wnotified, bookv>>
 
 \* ---------------------------------------------------------------- ThreadPoolContext::Dispatch
+\* The two counter resets may come in either order (they are independent stores that only have to precede the
+\* release store of signal_): the specification allows both, TLC shows both are safe.
 M_Next0 ==
-  /\ mpc = "next0" /\ next' = 0 /\ mpc' = "ndone0" /\ ev' = Ev(0, "store", "next", 0)
+  /\ mpc = "pre" /\ "next" \in pre /\ next' = 0 /\ pre' = pre \ {"next"}
+  /\ mpc' = (IF pre = {"next"} THEN "sigload" ELSE "pre") /\ ev' = Ev(0, "store", "next", 0)
   /\ UNCHANGED <<signal, ndone, ntask, nthr, pool, mtask, mreg, mi, after, nops, locked, depth, workv, bookv>>
 M_Ndone0 ==
-  /\ mpc = "ndone0" /\ ndone' = 0 /\ mpc' = "sigload" /\ ev' = Ev(0, "store", "ndone", 0)
+  /\ mpc = "pre" /\ "ndone" \in pre /\ ndone' = 0 /\ pre' = pre \ {"ndone"}
+  /\ mpc' = (IF pre = {"ndone"} THEN "sigload" ELSE "pre") /\ ev' = Ev(0, "store", "ndone", 0)
   /\ UNCHANGED <<signal, next, ntask, nthr, pool, mtask, mreg, mi, after, nops, locked, depth, workv, bookv>>
 M_SigLoad ==
   /\ mpc = "sigload" /\ mreg' = signal /\ mpc' = "sigstore" /\ ev' = Ev(0, "load", "signal", signal)
-  /\ UNCHANGED <<shared, mtask, mi, after, nops, locked, depth, workv, bookv>>
+  /\ UNCHANGED <<shared, mtask, mi, after, nops, pre, locked, depth, workv, bookv>>
 M_SigStore ==
   /\ mpc = "sigstore" /\ signal' = -mreg /\ mpc' = "notify" /\ ev' = Ev(0, "store", "signal", -mreg)
-  /\ UNCHANGED <<next, ndone, ntask, nthr, pool, mtask, mreg, mi, after, nops, locked, depth, workv, bookv>>
+  /\ UNCHANGED <<next, ndone, ntask, nthr, pool, mtask, mreg, mi, after, nops, pre, locked, depth, workv, bookv>>
 M_Notify ==
   /\ mpc = "notify" /\ wnotified' = [w \in Workers |-> wnotified[w] \/ (w \in Sleepers /\ Bug # "nonotify")]
   /\ mpc' = "fetch" /\ ev' = Ev(0, "notify", "signal", Cardinality(Sleepers))
-  /\ UNCHANGED <<shared, mtask, mreg, mi, after, nops, locked, depth, wpc, wstatus, wtask, bookv>>
+  /\ UNCHANGED <<shared, mtask, mreg, mi, after, nops, pre, locked, depth, wpc, wstatus, wtask, bookv>>
 M_Fetch ==
   /\ mpc = "fetch" /\ next' = next + 1 /\ ev' = Ev(0, "fadd", "next", next)
   /\ IF next >= ntask THEN mpc' = "spin" /\ mtask' = -1 ELSE mpc' = "run" /\ mtask' = next
-  /\ UNCHANGED <<signal, ndone, ntask, nthr, pool, mreg, mi, after, nops, locked, depth, workv, bookv>>
+  /\ UNCHANGED <<signal, ndone, ntask, nthr, pool, mreg, mi, after, nops, pre, locked, depth, workv, bookv>>
 M_RunStart ==
   /\ mpc = "run" /\ mpc' = "runend"
   /\ ran' = [ran EXCEPT ![mtask] = @ + 1] /\ running' = running \cup {<<0, mtask>>} /\ ranby' = ranby \cup {0}
   /\ ev' = Ev(0, "tstart", "task", mtask * 16)
-  /\ UNCHANGED <<shared, mtask, mreg, mi, after, nops, locked, depth, workv, want>>
+  /\ UNCHANGED <<shared, mtask, mreg, mi, after, nops, pre, locked, depth, workv, want>>
 M_RunEnd ==
   /\ mpc = "runend" /\ mpc' = "fetch" /\ running' = running \ {<<0, mtask>>}
   /\ ev' = Ev(0, "tend", "task", mtask * 16)
-  /\ UNCHANGED <<shared, mtask, mreg, mi, after, nops, locked, depth, workv, ran, ranby, want>>
+  /\ UNCHANGED <<shared, mtask, mreg, mi, after, nops, pre, locked, depth, workv, ran, ranby, want>>
 \* busy wait: while (ndone_.load() < nthread) {} ; on exit mju_dispatch unlocks and frees the stack frame
 M_Spin ==
   /\ mpc = "spin" /\ ev' = Ev(0, "load", "ndone", ndone)
   /\ IF ndone < (IF Bug = "spin" THEN nthr - 1 ELSE nthr) THEN UNCHANGED <<mpc, locked, depth>>
                      ELSE mpc' = "idle" /\ locked' = FALSE /\ depth' = depth - 1
-  /\ UNCHANGED <<shared, mtask, mreg, mi, after, nops, workv, bookv>>
+  /\ UNCHANGED <<shared, mtask, mreg, mi, after, nops, pre, workv, bookv>>
 
 \* ---------------------------------------------------------------- ThreadPoolContext::Worker(w)
 W_Wait(w) ==    \* signal_.wait(status): check-and-sleep is atomic
